@@ -9,10 +9,12 @@ open Lean Pywbem.Proto Pywbem.Model Pywbem.Model.CimJson Pywbem.Model.XmlText Py
         "k":n,"tree":tt|null,       expat+CIMContentHandler result for the first k octets (null = SAX error,
         "xmlexc":name|null,           or with xmlexc: that exception class escaped from xml.sax)
         "msg":cps,                  str(exc) of the XMLParseError / CIMXMLParseError, if any
-        "inst":"shared"|"ok"|{"exc":name},   parse_instance: shared decoder (with "codec") or given outcome
+        "inst":"shared"|"ok"|{"table":[[subtree,"ok"|name],…]},   parse_instance: shared decoder (with "codec"),
+                                    or the given outcomes per INSTANCE subtree (others: shared decoder)
         "foreign":name|null, "alloc":n, "exctext":cps}
   Output: {"obs":[o,…],"queue":[cps],"accepted":[cps],"delivered":[cps]}  (message ids)
-  o = {"rsp":{"status":n,"reason":cps,"headers":[[cps,cps],…],"body":cps},"nread":n|null}
+  o = {"rsp":{"status":n,"reason":cps,"headers":[[cps,cps],…],"body":cps},"nread":n|null,
+       "wire":cps}     header section as written to the socket, with the "server"/"date" values of the event
     | {"stdlib":true} | {"dropped":name} | null
   Other ops: {"op":"ascii2","s":cps} {"op":"quote","s":cps} {"op":"tokq","s":cps} {"op":"tokc","s":cps}
              {"op":"int","s":cps}
@@ -43,20 +45,32 @@ def envOfJson (j : Json) : Env :=
     | .null => .error ((getStr j "xmlexc").map (fun n => (⟨n⟩ : Exc)))
     | t => .ok (xmlOfJson t)
   let C := decCodecOfJson (getField j "codec")
+  let excOf (n : Option String) : Except PyExc Unit :=
+    match n with
+    | some "ok" => .ok ()
+    | some "CIMXMLParseError" => .error .cimXmlParseError
+    | some "XMLParseError" => .error .xmlParseError
+    | some "OverflowError" => .error .overflowError
+    | some "ValueError" => .error .valueError
+    | some "TypeError" => .error .typeError
+    | some "KeyError" => .error .keyError
+    | some "AttributeError" => .error .attributeError
+    | some "RecursionError" => .error .recursionError
+    | some "IndexError" => .error .indexError
+    | _ => .error .assertionError
+  let shared : Xml → Except PyExc Unit := fun t => (decInstance C (embAt C 8) t).map (fun _ => ())
   let instP : Xml → Except PyExc Unit :=
     match getField j "inst" with
     | .str "ok" => fun _ => .ok ()
-    | .str _ => fun t => (decInstance C (embAt C 8) t).map (fun _ => ())
-    | o => match getStr o "exc" with
-      | some "CIMXMLParseError" => fun _ => .error .cimXmlParseError
-      | some "XMLParseError" => fun _ => .error .xmlParseError
-      | some "OverflowError" => fun _ => .error .overflowError
-      | some "ValueError" => fun _ => .error .valueError
-      | some "TypeError" => fun _ => .error .typeError
-      | some "KeyError" => fun _ => .error .keyError
-      | some "AttributeError" => fun _ => .error .attributeError
-      | some "RecursionError" => fun _ => .error .recursionError
-      | _ => fun _ => .error .assertionError
+    | .str _ => shared
+    | o =>
+      -- {"table":[[subtree, outcome],…]}: outcomes of the real parse_instance, keyed by the subtree
+      let tab : List (String × Option String) := (getArr o "table").filterMap (fun e => match e with
+        | .arr a => some ((xmlToJson (xmlOfJson (a[0]!))).compress, match a[1]! with | .str x => some x | _ => none)
+        | _ => none)
+      fun t => match tab.find? (fun e => e.1 == (xmlToJson t).compress) with
+        | some e => excOf e.2
+        | none => shared t
   { xmlParse := fun bs => if bs.length == k then tree else .ok missing,
     parserMsg := (getChars j "msg").getD [],
     instParse := instP,
@@ -99,6 +113,7 @@ def runHist (cfg : Cfg) : LState → List Json → List Json → LState × List 
       let (s', o) := step cfg s (.request E r)
       let oj := match o with
         | .response rsp => Json.mkObj [("rsp", rspJ rsp),
+            ("wire", cpsToJson (wireHead ((getChars e "server").getD []) ((getChars e "date").getD []) rsp)),
             ("nread", if r.method = "POST".toList then optToJson (fun (n : Nat) => (n : Json)) (bytesRead cfg E r) else Json.null)]
         | .stdlib => Json.mkObj [("stdlib", true)]
         | .dropped x => Json.mkObj [("dropped", x.name)]
